@@ -702,6 +702,18 @@ class PDFPageInterpreter:
     def do_W_a(self) -> None:
         """Set clipping path using even-odd rule"""
 
+    @staticmethod
+    def _initial_color(cs: PDFColorSpace) -> Optional[Color]:
+        """Initial colour of a colour space (PDF 32000-1, table 74)"""
+        if cs.name == "DeviceCMYK":
+            return (0.0, 0.0, 0.0, 1.0)
+        elif cs.name in ("DeviceRGB", "CalRGB", "Lab"):
+            return (0.0, 0.0, 0.0)
+        elif cs.name in ("DeviceGray", "CalGray", "Indexed"):
+            return 0.0
+        # Separation, DeviceN, ICCBased, Pattern: not tracked
+        return None
+
     def do_CS(self, name: PDFStackT) -> None:
         """Set color space for stroking operations
 
@@ -712,6 +724,9 @@ class PDFPageInterpreter:
         except KeyError:
             if settings.STRICT:
                 raise PDFInterpreterError("Undefined ColorSpace: %r" % name)
+        else:
+            # selecting a colour space resets the colour to its initial value
+            self.graphicstate.scolor = self._initial_color(self.scs)
 
     def do_cs(self, name: PDFStackT) -> None:
         """Set color space for nonstroking operations"""
@@ -720,6 +735,9 @@ class PDFPageInterpreter:
         except KeyError:
             if settings.STRICT:
                 raise PDFInterpreterError("Undefined ColorSpace: %r" % name)
+        else:
+            # selecting a colour space resets the colour to its initial value
+            self.graphicstate.ncolor = self._initial_color(self.ncs)
 
     def do_G(self, gray: PDFStackT) -> None:
         """Set gray level for stroking operations"""
